@@ -1,0 +1,319 @@
+//go:build verif
+
+// Contracts for the govc verifier (see /verif/DESIGN.md). Comment-only file.
+package heapz
+
+// cmp is "precedes"; a strict weak order: irreflexive, transitive, and incomparability is transitive
+//@ spec swo(cmp fn) bool = (forall a: !cmp(a, a)) && (forall a, b, c: (cmp(a, b) && cmp(b, c)) ==> cmp(a, c)) && (forall a, b, c: (!cmp(a, b) && !cmp(b, c)) ==> !cmp(a, c))
+// the edge entering node c (from its parent (c-1)/2) is in order when c does not precede its parent
+//@ spec edgeOK(s bytes_any, cmp fn, c int) bool = !cmp(s[c], s[(c-1)/2])
+//@ spec heapOK(s bytes_any, cmp fn, n int) bool = forall c in 1..n: edgeOK(s, cmp, c)
+// bridge: the children of x do not precede x's parent
+//@ spec bridge(s bytes_any, cmp fn, n int, x int) bool = x > 0 ==> ((2*x+1 < n ==> !cmp(s[2*x+1], s[(x-1)/2])) && (2*x+2 < n ==> !cmp(s[2*x+2], s[(x-1)/2])))
+// all edges in order except those leaving node x
+//@ spec heapDownPre(s bytes_any, cmp fn, n int, x int) bool = (forall c in 1..n: (c-1)/2 != x ==> edgeOK(s, cmp, c)) && bridge(s, cmp, n, x)
+// all edges in order except the one entering node x
+//@ spec heapUpPre(s bytes_any, cmp fn, n int, x int) bool = (forall c in 1..n: c != x ==> edgeOK(s, cmp, c)) && bridge(s, cmp, n, x)
+
+//@ func swap
+//@   requires 0 <= i && i < len(s) && 0 <= j && j < len(s)
+//@   modifies s[i], s[j]
+//@   ensures s[i] == old(s[j]) && s[j] == old(s[i])
+
+//@ func up@swap
+//@   bind swap = swap
+//@   ghostparam n
+//@   ghost[perm] pm = idseq()
+//@   ghost[perm] ipm = idseq()
+//@   requires 0 <= j && j < n && n <= len(s)
+//@   requires[order] swo(cmp) && heapUpPre(s, cmp, n, j)
+//@   modifies s[0:n]
+//@   ensures[order] heapOK(s, cmp, n)
+//@   ensures[perm] forall k in 0..len(s): 0 <= pm[k] && pm[k] < len(s) && ipm[pm[k]] == k && (k >= n ==> pm[k] == k)
+//@   ensures[perm] forall k in 0..len(s): s[k] == old(s[pm[k]])
+//@   loop 1:
+//@     invariant 0 <= j && j <= old(j) && unchangedOutside(s, 0, n)
+//@     invariant[order] heapUpPre(s, cmp, n, j)
+//@     invariant[perm] forall k in 0..len(s): 0 <= pm[k] && pm[k] < len(s) && ipm[pm[k]] == k && (k >= n ==> pm[k] == k)
+//@     invariant[perm] forall k in 0..len(s): s[k] == old(s[pm[k]])
+//@     decreases j
+//@   at after-call2:
+//@     ghost[perm] ipm = swapseq(ipm, pm[i], pm[j])
+//@     ghost[perm] pm = swapseq(pm, i, j)
+
+// as above, restricted to edges whose parent index is at least lo (build works bottom-up on sub-heaps)
+//@ spec heapFrom(s bytes_any, cmp fn, n int, lo int) bool = forall c in 1..n: (c-1)/2 >= lo ==> edgeOK(s, cmp, c)
+//@ spec bridgeFrom(s bytes_any, cmp fn, n int, x int, lo int) bool = (x > 0 && (x-1)/2 >= lo) ==> ((2*x+1 < n ==> !cmp(s[2*x+1], s[(x-1)/2])) && (2*x+2 < n ==> !cmp(s[2*x+2], s[(x-1)/2])))
+// all edges (with parent >= lo) in order except those entering or leaving node x (the value at x was replaced)
+//@ spec heapFixPre(s bytes_any, cmp fn, n int, x int, lo int) bool = (forall c in 1..n: ((c-1)/2 >= lo && c != x && (c-1)/2 != x) ==> edgeOK(s, cmp, c)) && bridgeFrom(s, cmp, n, x, lo)
+
+//@ func down@swap
+//@   bind swap = swap
+//@   ghostparam lo
+//@   ghost[perm] pm = idseq()
+//@   ghost[perm] ipm = idseq()
+//@   requires 0 <= lo && lo <= i0 && i0 <= n && n <= len(s)
+//@   requires[order] swo(cmp) && heapFixPre(s, cmp, n, i0, lo)
+//@   modifies s[0:n]
+//@   ensures[order] result ==> heapFrom(s, cmp, n, lo)
+//@   ensures[order] !result ==> forall c in 1..n: ((c-1)/2 >= lo && c != i0) ==> edgeOK(s, cmp, c)
+//@   ensures[order] !result ==> bridgeFrom(s, cmp, n, i0, lo)
+//@   ensures[perm] !result ==> forall k in 0..len(s): s[k] == old(s[k])
+//@   ensures[perm] forall k in 0..len(s): 0 <= pm[k] && pm[k] < len(s) && ipm[pm[k]] == k && (k >= n ==> pm[k] == k) && (k < i0 ==> pm[k] == k)
+//@   ensures[perm] forall k in 0..len(s): s[k] == old(s[pm[k]])
+//@   loop 1:
+//@     invariant i0 <= i && (i < n || i == i0) && unchangedOutside(s, 0, n)
+//@     invariant[order] forall c in 1..n: ((c-1)/2 >= lo && (c-1)/2 != i && (c != i0 || i != i0)) ==> edgeOK(s, cmp, c)
+//@     invariant[order] bridgeFrom(s, cmp, n, i, lo)
+//@     invariant[perm] i == i0 ==> forall k in 0..len(s): s[k] == old(s[k])
+//@     invariant[perm] forall k in 0..len(s): 0 <= pm[k] && pm[k] < len(s) && ipm[pm[k]] == k && (k >= n ==> pm[k] == k) && (k < i0 ==> pm[k] == k)
+//@     invariant[perm] forall k in 0..len(s): s[k] == old(s[pm[k]])
+//@     decreases n - i
+//@   at after-call3:
+//@     ghost[perm] ipm = swapseq(ipm, pm[i], pm[j])
+//@     ghost[perm] pm = swapseq(pm, i, j)
+
+//@ func fix@swap
+//@   bind swap = swap
+//@   ghost lo = 0
+//@   ghost n = tail
+//@   ghost[perm] pm = idseq()
+//@   ghost[perm] ipm = idseq()
+//@   requires 0 <= index && index < tail && tail <= len(s)
+//@   requires[order] swo(cmp) && heapFixPre(s, cmp, tail, index, 0)
+//@   modifies s[0:tail]
+//@   ensures[order] heapOK(s, cmp, tail)
+//@   ensures[perm] forall k in 0..len(s): 0 <= pm[k] && pm[k] < len(s) && ipm[pm[k]] == k && (k >= tail ==> pm[k] == k)
+//@   ensures[perm] forall k in 0..len(s): s[k] == old(s[pm[k]])
+//@   at after-call1:
+//@     ghost[perm] pm = last_pm
+//@     ghost[perm] ipm = last_ipm
+//@   at after-call2:
+//@     ghost[perm] pm = compseq(pm, last_pm)
+//@     ghost[perm] ipm = compseq(last_ipm, ipm)
+
+//@ func build@swap
+//@   bind swap = swap
+//@   ghost lo = 0
+//@   ghost[perm] pm = idseq()
+//@   ghost[perm] ipm = idseq()
+//@   ensures[perm] forall k in 0..len(s): 0 <= pm[k] && pm[k] < len(s) && ipm[pm[k]] == k
+//@   ensures[perm] forall k in 0..len(s): s[k] == old(s[pm[k]])
+//@   requires[order] swo(cmp)
+//@   modifies s[0:len(s)]
+//@   ensures[order] heapOK(s, cmp, len(s))
+//@   loop 1:
+//@     invariant -1 <= i && i < n && n == len(s) && unchangedOutside(s, 0, n)
+//@     invariant[order] heapFrom(s, cmp, n, i + 1)
+//@     invariant[perm] forall k in 0..len(s): 0 <= pm[k] && pm[k] < len(s) && ipm[pm[k]] == k
+//@     invariant[perm] forall k in 0..len(s): s[k] == old(s[pm[k]])
+//@     decreases i + 1
+//@   at loop1.body-begin:
+//@     ghost lo = i
+//@   at after-call2:
+//@     ghost[perm] pm = compseq(pm, last_pm)
+//@     ghost[perm] ipm = compseq(last_ipm, ipm)
+
+// the root precedes no... rather: no element of a heap precedes its root (induction along the path to the root)
+//@ lemma rootMin(s seq, off int, f int, n int, k int)
+//@   requires (forall a: !cmpapp(f, a, a)) && (forall a, b, c: (!cmpapp(f, a, b) && !cmpapp(f, b, c)) ==> !cmpapp(f, a, c))
+//@   requires forall c in 1..n: !cmpapp(f, s[off+c], s[off+(c-1)/2])
+//@   requires 0 <= k && k < n
+//@   decreases k
+//@   ih s, off, f, n, (k-1)/2
+//@   ensures !cmpapp(f, s[off+k], s[off])
+
+//@ spec sliceOK(s ref) bool = swo(s.cmp) && heapOK(s.Values, s.cmp, len(s.Values))
+
+//@ func FromSlice
+//@   requires[order] swo(cmp)
+//@   modifies s[0:len(s)]
+//@   ensures sameSlice(result.Values, s)
+//@   ensures[order] sliceOK(result)
+
+//@ func Slice.Len
+//@   inline
+
+//@ func Slice.Peek
+//@   ensures result2 == (len(s.Values) > 0)
+//@   ensures result2 ==> result1 == s.Values[0]
+
+//@ func Slice.Push
+//@   ghost[perm] pm = idseq()
+//@   ghost[perm] ipm = idseq()
+//@   ghost n = 0
+//@   requires[order] sliceOK(s)
+//@   modifies s.Values, s.Values[0:cap(s.Values)]
+//@   ensures len(s.Values) == old(len(s.Values)) + 1
+//@   ensures[order] sliceOK(s)
+//@   ensures[perm] forall k in 0..len(s.Values): 0 <= pm[k] && pm[k] < len(s.Values) && ipm[pm[k]] == k
+//@   ensures[perm] forall k in 0..len(s.Values): s.Values[k] == ite(pm[k] == old(len(s.Values)), x, old(s.Values)[pm[k]])
+//@   at after-call1:
+//@     ghost n = len(s.Values)
+//@   at after-call2:
+//@     ghost[perm] pm = last_pm
+//@     ghost[perm] ipm = last_ipm
+
+//@ lemma rootMinAll(s seq, off int, f int, n int)
+//@   decreases n
+//@   ih s, off, f, n-1
+//@   requires (forall a: !cmpapp(f, a, a)) && (forall a, b, c: (!cmpapp(f, a, b) && !cmpapp(f, b, c)) ==> !cmpapp(f, a, c))
+//@   requires forall c in 1..n: !cmpapp(f, s[off+c], s[off+(c-1)/2])
+//@   ensures forall k in 0..n: !cmpapp(f, s[off+k], s[off])
+
+//@ func Slice.Pop
+//@   ghost lo = 0
+//@   ghost[perm] pm = idseq()
+//@   ghost[perm] ipm = idseq()
+//@   requires[order] sliceOK(s)
+//@   modifies s.Values, s.Values[0:len(s.Values)]
+//@   ensures result2 == (old(len(s.Values)) > 0)
+//@   ensures result2 ==> len(s.Values) == old(len(s.Values)) - 1 && result1 == old(s.Values[0])
+//@   ensures[order] sliceOK(s)
+//@   ensures[order] result2 ==> forall k in 0..old(len(s.Values)): !app(s.cmp, old(s.Values)[k], result1)
+//@   ensures[perm] result2 ==> forall k in 0..len(s.Values): 1 <= pm[k] && pm[k] < old(len(s.Values)) && ipm[pm[k]] == k
+//@   ensures[perm] result2 ==> forall k in 0..len(s.Values): s.Values[k] == old(s.Values)[pm[k]]
+//@   at begin:
+//@     apply[order] rootMinAll(rowof(s.Values), offof(s.Values), s.cmp, len(s.Values))
+//@   at after-call2:
+//@     ghost[perm] pm = compseq(swapseq(idseq(), 0, n), last_pm)
+//@     ghost[perm] ipm = compseq(last_ipm, swapseq(idseq(), 0, n))
+
+//@ func Slice.Remove
+//@   ghost lo = 0
+//@   requires[order] sliceOK(s)
+//@   modifies s.Values, s.Values[0:len(s.Values)]
+//@   ensures result2 == (0 <= i && i < old(len(s.Values)))
+//@   ensures result2 ==> len(s.Values) == old(len(s.Values)) - 1 && result1 == old(s.Values[i])
+//@   ensures !result2 ==> sameSlice(s.Values, old(s.Values))
+//@   ensures[order] sliceOK(s)
+
+//@ func Slice.Fix
+//@   ghost lo = 0
+//@   requires[order] swo(s.cmp) && (0 <= i && i < len(s.Values) ==> heapFixPre(s.Values, s.cmp, len(s.Values), i, 0))
+//@   requires[order] (i < 0 || i >= len(s.Values)) ==> heapOK(s.Values, s.cmp, len(s.Values))
+//@   modifies s.Values[0:len(s.Values)]
+//@   ensures[order] sliceOK(s)
+
+
+// ---- Heap with element handles: every slot holds a non-nil element that knows its own position ----
+//@ spec nonNil(s bytes_any) bool = forall k in 0..len(s): s[k] != nil
+//@ spec idxOK(s bytes_any) bool = forall k in 0..len(s): s[k] != nil && s[k].index == k
+
+//@ func swapEle
+//@   requires 0 <= i && i < len(s) && 0 <= j && j < len(s) && s[i] != nil && s[j] != nil
+//@   requires[perm] s[i] != s[j] || i == j
+//@   modifies s[i], s[j]
+//@   modifies[perm] s[i].index, s[j].index
+//@   ensures s[i] == old(s[j]) && s[j] == old(s[i])
+//@   ensures[perm] s[i].index == i && s[j].index == j
+
+//@ func up@swapEle
+//@   bind swap = swapEle
+//@   ghostparam n
+//@   ghost[perm] pm = idseq()
+//@   ghost[perm] ipm = idseq()
+//@   requires 0 <= j && j < n && n <= len(s) && nonNil(s)
+//@   requires[perm] idxOK(s)
+//@   requires[order] swo(cmp) && heapUpPre(s, cmp, n, j)
+//@   modifies s[0:n]
+//@   modifies[perm] elemIndex(s)
+//@   ensures nonNil(s)
+//@   ensures[perm] idxOK(s)
+//@   ensures[order] heapOK(s, cmp, n)
+//@   ensures[perm] forall k in 0..len(s): 0 <= pm[k] && pm[k] < len(s) && ipm[pm[k]] == k && (k >= n ==> pm[k] == k)
+//@   ensures[perm] forall k in 0..len(s): s[k] == old(s[pm[k]])
+//@   loop 1:
+//@     invariant 0 <= j && j <= old(j) && unchangedOutside(s, 0, n) && nonNil(s)
+//@     invariant[perm] idxOK(s) && elemIndexFrame(old(s))
+//@     invariant[order] heapUpPre(s, cmp, n, j)
+//@     invariant[perm] forall k in 0..len(s): 0 <= pm[k] && pm[k] < len(s) && ipm[pm[k]] == k && (k >= n ==> pm[k] == k)
+//@     invariant[perm] forall k in 0..len(s): s[k] == old(s[pm[k]])
+//@     decreases j
+//@   at after-call2:
+//@     assert[perm] s[i] == old(s)[pm[j]] && s[j] == old(s)[pm[i]]
+//@     ghost[perm] ipm = swapseq(ipm, pm[i], pm[j])
+//@     ghost[perm] pm = swapseq(pm, i, j)
+
+//@ func down@swapEle
+//@   bind swap = swapEle
+//@   ghostparam lo
+//@   ghost[perm] pm = idseq()
+//@   ghost[perm] ipm = idseq()
+//@   requires 0 <= lo && lo <= i0 && i0 <= n && n <= len(s) && nonNil(s)
+//@   requires[perm] idxOK(s)
+//@   requires[order] swo(cmp) && heapFixPre(s, cmp, n, i0, lo)
+//@   modifies s[0:n]
+//@   modifies[perm] elemIndex(s)
+//@   ensures nonNil(s)
+//@   ensures[perm] idxOK(s)
+//@   ensures[order] result ==> heapFrom(s, cmp, n, lo)
+//@   ensures[order] !result ==> forall c in 1..n: ((c-1)/2 >= lo && c != i0) ==> edgeOK(s, cmp, c)
+//@   ensures[order] !result ==> bridgeFrom(s, cmp, n, i0, lo)
+//@   ensures[perm] !result ==> forall k in 0..len(s): s[k] == old(s[k])
+//@   ensures[perm] forall k in 0..len(s): 0 <= pm[k] && pm[k] < len(s) && ipm[pm[k]] == k && (k >= n ==> pm[k] == k) && (k < i0 ==> pm[k] == k)
+//@   ensures[perm] forall k in 0..len(s): s[k] == old(s[pm[k]])
+//@   loop 1:
+//@     invariant i0 <= i && (i < n || i == i0) && unchangedOutside(s, 0, n) && nonNil(s)
+//@     invariant[perm] idxOK(s) && elemIndexFrame(old(s))
+//@     invariant[order] forall c in 1..n: ((c-1)/2 >= lo && (c-1)/2 != i && (c != i0 || i != i0)) ==> edgeOK(s, cmp, c)
+//@     invariant[order] bridgeFrom(s, cmp, n, i, lo)
+//@     invariant[perm] i == i0 ==> forall k in 0..len(s): s[k] == old(s[k])
+//@     invariant[perm] forall k in 0..len(s): 0 <= pm[k] && pm[k] < len(s) && ipm[pm[k]] == k && (k >= n ==> pm[k] == k) && (k < i0 ==> pm[k] == k)
+//@     invariant[perm] forall k in 0..len(s): s[k] == old(s[pm[k]])
+//@     decreases n - i
+//@   at after-call3:
+//@     assert[perm] s[i] == old(s)[pm[j]] && s[j] == old(s)[pm[i]]
+//@     ghost[perm] ipm = swapseq(ipm, pm[i], pm[j])
+//@     ghost[perm] pm = swapseq(pm, i, j)
+
+//@ func fix@swapEle
+//@   bind swap = swapEle
+//@   ghost lo = 0
+//@   ghost n = tail
+//@   ghost[perm] pm = idseq()
+//@   ghost[perm] ipm = idseq()
+//@   requires 0 <= index && index < tail && tail <= len(s) && nonNil(s)
+//@   requires[perm] idxOK(s)
+//@   requires[order] swo(cmp) && heapFixPre(s, cmp, tail, index, 0)
+//@   modifies s[0:tail]
+//@   modifies[perm] elemIndex(s)
+//@   ensures nonNil(s)
+//@   ensures[perm] idxOK(s)
+//@   ensures[order] heapOK(s, cmp, tail)
+//@   ensures[perm] forall k in 0..len(s): 0 <= pm[k] && pm[k] < len(s) && ipm[pm[k]] == k && (k >= tail ==> pm[k] == k)
+//@   ensures[perm] forall k in 0..len(s): s[k] == old(s[pm[k]])
+//@   at after-call1:
+//@     ghost[perm] pm = last_pm
+//@     ghost[perm] ipm = last_ipm
+//@   at after-call2:
+//@     ghost[perm] pm = compseq(pm, last_pm)
+//@     ghost[perm] ipm = compseq(last_ipm, ipm)
+
+//@ func build@swapEle
+//@   bind swap = swapEle
+//@   ghost lo = 0
+//@   ghost[perm] pm = idseq()
+//@   ghost[perm] ipm = idseq()
+//@   ensures[perm] forall k in 0..len(s): 0 <= pm[k] && pm[k] < len(s) && ipm[pm[k]] == k
+//@   ensures[perm] forall k in 0..len(s): s[k] == old(s[pm[k]])
+//@   requires nonNil(s)
+//@   requires[perm] idxOK(s)
+//@   requires[order] swo(cmp)
+//@   modifies s[0:len(s)]
+//@   modifies[perm] elemIndex(s)
+//@   ensures nonNil(s)
+//@   ensures[perm] idxOK(s)
+//@   ensures[order] heapOK(s, cmp, len(s))
+//@   loop 1:
+//@     invariant -1 <= i && i < n && n == len(s) && unchangedOutside(s, 0, n) && nonNil(s)
+//@     invariant[perm] idxOK(s) && elemIndexFrame(old(s))
+//@     invariant[order] heapFrom(s, cmp, n, i + 1)
+//@     invariant[perm] forall k in 0..len(s): 0 <= pm[k] && pm[k] < len(s) && ipm[pm[k]] == k
+//@     invariant[perm] forall k in 0..len(s): s[k] == old(s[pm[k]])
+//@     decreases i + 1
+//@   at loop1.body-begin:
+//@     ghost lo = i
+//@   at after-call2:
+//@     ghost[perm] pm = compseq(pm, last_pm)
+//@     ghost[perm] ipm = compseq(last_ipm, ipm)
